@@ -252,6 +252,139 @@ Proof.
     apply (Fresh _ Cev). rewrite b64url_dec_enc, Dc, Hin. reflexivity.
 Qed.
 
+(* ---- where the fresh nonce comes from ---- *)
+Definition randkeep {A} (m : M A) : Prop :=
+  forall h r h', m h = (r, h') -> h_fresh h' = h_fresh h /\ h_starved h' = h_starved h.
+
+Lemma randkeep_modify f : (forall h, h_fresh (f h) = h_fresh h /\ h_starved (f h) = h_starved h) -> randkeep (modify f).
+Proof. intros H h r h' Eq. inversion Eq; subst. apply H. Qed.
+
+Lemma randkeep_st_use_rm O p t : randkeep (st_use_rm O p t).
+Proof.
+  intros h r h' Eq. unfold st_use_rm, backend in Eq.
+  destruct (fault_at (h_ncalls h) (o_faults O)) as [[|]|]; [inversion Eq; subst; auto..|].
+  cbv zeta in Eq.
+  match type of Eq with context [if ?b then _ else _] => destruct b end; inversion Eq; subst; auto.
+Qed.
+
+Lemma randkeep_st_add_rm O p t : randkeep (st_add_rm O p t).
+Proof.
+  intros h r h' Eq. unfold st_add_rm, backend in Eq.
+  destruct (fault_at (h_ncalls h) (o_faults O)) as [[|]|]; inversion Eq; subst; auto.
+Qed.
+
+Lemma take_chunk_in n l c t : take_chunk n l = Some (c, t) -> In c l.
+Proof.
+  revert c t. induction l as [|x l IH]; simpl; intros c t Eq; [discriminate|].
+  destruct (Nat.eqb (length x) n).
+  - inversion Eq; subst. left. reflexivity.
+  - destruct (take_chunk n l) as [[y t']|]; [|discriminate]. inversion Eq; subst. right. eapply IH; reflexivity.
+Qed.
+
+Lemma fresh_source n h r h' : fresh n h = (r, h') ->
+  exists c, r = Ok c /\ h_cev h' = h_cev h /\ (In c (h_fresh h) \/ h_starved h' = true).
+Proof.
+  unfold fresh. intros Eq. destruct (take_chunk n (h_fresh h)) as [[c t]|] eqn:Tk; inversion Eq; subst.
+  - exists c. repeat split. left. eapply take_chunk_in; eauto.
+  - eexists. repeat split. right. reflexivity.
+Qed.
+
+(* the replacement cookie that a first run sent cannot decode to the consumed token when the consumed
+   token's nonce (its last 32 bytes) is not among the random chunks the oracle offered to that
+   request and the request was not starved of randomness *)
+Lemma remember_fresh_differs_lemma E h r h' cookie raw c' :
+  remember_authenticate E h = (r, h') ->
+  alookup k_rm (e_cook E) = Some cookie -> b64url_dec cookie = Some raw ->
+  h_starved h' = false -> ~ In (skipn (length raw - 32) raw) (h_fresh h) ->
+  h_cev h' = h_cev h ++ [Del k_rm; Put k_rm c'] ->
+  b64url_dec c' <> b64url_dec cookie.
+Proof.
+  intros Eq Ck Dc NS NF Cev. unfold remember_authenticate in Eq. rewrite Ck, Dc in Eq.
+  assert (ONE : forall X : Prop, h_cev h' = h_cev h ++ [Del k_rm] -> X).
+  { intros X H. rewrite H in Cev. apply app_inv_head in Cev. discriminate Cev. }
+  assert (ZERO : forall X : Prop, h_cev h' = h_cev h -> X).
+  { intros X H. rewrite H in Cev. apply app_same_nil in Cev. discriminate Cev. }
+  destruct (rm_parse_pid raw) as [pid|] eqn:Pp.
+  2:{ apply ONE.
+      apply bind_inv in Eq as [(a1 & k1 & F1 & Eq)|[(e & F1 & _)|(F1 & _)]]; try (inversion F1; fail).
+      apply del_cookie_spec in F1 as (_ & _ & C1 & _). apply log_spec in Eq as (_ & _ & C2 & _). congruence. }
+  cbv zeta in Eq.
+  apply try_inv in Eq as [(x & k1 & L & NP & Eq)|(L & ->)].
+  2:{ exfalso. apply st_use_rm_exact in L as (_ & _ & [(Hx & _)|[(Hx & _)|(Hx & _)]]); discriminate Hx. }
+  pose proof (randkeep_st_use_rm _ _ _ _ _ _ L) as (Fr1 & _).
+  apply st_use_rm_exact in L as (_ & C1 & [(-> & _ & _)|[(-> & _ & _)|(-> & _ & _)]]).
+  2:{ apply ONE.
+      apply bind_inv in Eq as [(a1 & k2 & F1 & Eq)|[(e & F1 & _)|(F1 & _)]]; try (inversion F1; fail).
+      apply log_spec in F1 as (_ & _ & C2 & _). apply del_cookie_spec in Eq as (_ & _ & C3 & _). congruence. }
+  2:{ apply ZERO. inversion Eq; subst. exact C1. }
+  unfold rm_generate in Eq.
+  apply bind_inv in Eq as [(gt & k2 & F2 & Eq)|[(e & F2 & ->)|(F2 & ->)]].
+  2,3: apply bind_inv in F2 as [(c & k3 & F3 & F2)|[(e' & F3 & _)|(F3 & _)]];
+       apply fresh_source in F3 as (c0 & Hr & _); try discriminate Hr; inversion F2.
+  apply bind_inv in F2 as [(nonce & k3 & F3 & F2)|[(e' & F3 & D)|(F3 & D)]]; try discriminate D.
+  apply fresh_source in F3 as (c0 & Hr & C2 & Src). inversion Hr; subst c0; clear Hr.
+  inversion F2; subst gt k3; clear F2. cbn beta iota in Eq.
+  apply bind_inv in Eq as [(a3 & k3 & F3 & Eq)|[(e & F3 & ->)|(F3 & ->)]].
+  2,3: apply ZERO; apply try_inv in F3 as [(y & k4 & L4 & _ & F3)|(L4 & _)];
+       apply st_add_rm_exact in L4 as (_ & C4 & _);
+       try (destruct y as [[]|e'|]; inversion F3; subst); congruence.
+  apply try_inv in F3 as [(y & k4 & L4 & NP4 & F3)|(L4 & Hp)]; [|discriminate Hp].
+  pose proof (randkeep_st_add_rm _ _ _ _ _ _ L4) as (_ & St4).
+  apply st_add_rm_exact in L4 as (_ & C4 & _).
+  assert (X3 : h_cev k3 = h_cev k4 /\ h_starved k3 = h_starved k4)
+    by (destruct y as [[]|e'|]; inversion F3; subst; auto).
+  destruct X3 as (C4' & St4'). clear F3.
+  apply bind_inv in Eq as [(a5 & k5 & F5 & Eq)|[(e & F5 & _)|(F5 & _)]]; try (inversion F5; fail).
+  assert (X5 : h_cev k5 = h_cev k3 /\ h_starved k5 = h_starved k3) by (inversion F5; subst; auto). clear F5.
+  apply bind_inv in Eq as [(a6 & k6 & F6 & Eq)|[(e & F6 & _)|(F6 & _)]]; try (inversion F6; fail).
+  assert (X6 : h_cev k6 = h_cev k5 /\ h_starved k6 = h_starved k5) by (inversion F6; subst; auto). clear F6.
+  apply bind_inv in Eq as [(a7 & k7 & F7 & Eq)|[(e & F7 & _)|(F7 & _)]]; try (inversion F7; fail).
+  assert (X7 : h_cev k7 = h_cev k6 /\ h_starved k7 = h_starved k6) by (inversion F7; subst; auto). clear F7.
+  apply bind_inv in Eq as [(a8 & k8 & F8 & Eq)|[(e & F8 & _)|(F8 & _)]]; try (inversion F8; fail).
+  assert (X8 : h_cev k8 = h_cev k7 ++ [Del k_rm] /\ h_starved k8 = h_starved k7) by (inversion F8; subst; auto). clear F8.
+  assert (X9 : h_cev h' = h_cev k8 ++ [Put k_rm (b64url_enc (pid ++ ";"%byte :: nonce))] /\ h_starved h' = h_starved k8)
+    by (inversion Eq; subst; auto).
+  destruct X5 as (C5 & S5), X6 as (C6 & S6), X7 as (C7 & S7), X8 as (C8 & S8), X9 as (C9 & S9).
+  assert (Cf : h_cev h' = h_cev h ++ [Del k_rm; Put k_rm (b64url_enc (pid ++ ";"%byte :: nonce))]).
+  { rewrite C9, C8, C7, C6, C5, C4', C4, C2, C1, <- app_assoc. reflexivity. }
+  rewrite Cf in Cev. apply app_inv_head in Cev. inversion Cev; subst c'.
+  rewrite b64url_dec_enc, Dc. intros Hx. inversion Hx as [Hraw]. apply NF.
+  destruct Src as [Src|Src]; [|congruence].
+  rewrite Fr1 in Src. rewrite <- Hraw.
+  assert (Ln : length nonce = 32%nat).
+  { unfold rm_parse_pid in Pp. rewrite <- Hraw in Pp. rewrite app_length in Pp. cbn [length] in Pp.
+    destruct (length pid + S (length nonce) <? 33)%nat eqn:Lt; [discriminate Pp|]. apply Nat.ltb_ge in Lt.
+    destruct (nth_error (pid ++ ";"%byte :: nonce) (length pid + S (length nonce) - 33)) as [c|] eqn:Ne; [|discriminate Pp].
+    destruct (Byte.eqb c ";"%byte); [|discriminate Pp]. inversion Pp as [Hp].
+    apply (f_equal (@length byte)) in Hp. rewrite firstn_length, app_length in Hp. cbn [length] in Hp. lia. }
+  rewrite app_length. cbn [length]. rewrite Ln.
+  replace (length pid + 33 - 32)%nat with (length pid + 1)%nat by lia.
+  rewrite skipn_app, skipn_all2 by lia. replace (length pid + 1 - length pid)%nat with 1%nat by lia.
+  cbn [skipn app]. exact Src.
+Qed.
+
+(* the two-run theorem with the freshness hypothesis stated on the oracle's random chunks *)
+Lemma remember_once_fresh_lemma E1 h1 r1 h1' U cookie E2 h2 r2 h2' :
+  crypto_laws (e_C E1) ->
+  remember_authenticate E1 h1 = (r1, h1') ->
+  (exists ls, h_sev h1' = h_sev h1 ++ ls /\ In (Put k_uid U) ls) ->
+  alookup k_rm (e_cook E1) = Some cookie ->
+  (forall raw, b64url_dec cookie = Some raw ->
+     (count_occ bytes_dec (rmlookup U (s_rm (h_st h1))) (b64std_enc (sha (e_C E1) raw)) <= 1)%nat) ->
+  h_starved h1' = false ->
+  (forall raw, b64url_dec cookie = Some raw -> ~ In (skipn (length raw - 32) raw) (h_fresh h1)) ->
+  e_C E2 = e_C E1 -> alookup k_rm (e_cook E2) = Some cookie -> h_st h2 = h_st h1' ->
+  remember_authenticate E2 h2 = (r2, h2') ->
+  h_sev h2' = h_sev h2 /\ h_st h2' = h_st h2 /\
+  (o_faults (e_O E2) = [] -> r2 = Ok tt /\ h_cev h2' = h_cev h2 ++ [Del k_rm]).
+Proof.
+  intros laws R1 Ap Ck Once NS NF. apply (remember_once_lemma E1 h1 r1 h1' U cookie); auto.
+  intros c' Cev. destruct (b64url_dec cookie) as [raw|] eqn:Dc.
+  - rewrite <- Dc. exact (remember_fresh_differs_lemma E1 h1 r1 h1' cookie raw c' R1 Ck Dc NS (NF raw eq_refl) Cev).
+  - destruct (remember_use_rotates_lemma E1 _ _ _ U R1 Ap) as (cookie0 & raw & _ & Ck0 & Dc0 & _).
+    rewrite Ck in Ck0. inversion Ck0; subst. congruence.
+Qed.
+
 (* ============================== C12 (a): one-time password ==================================== *)
 
 (* session events that only set a flash message *)
@@ -463,4 +596,477 @@ Proof.
   apply (otp_login_refused_lemma E2 h2 r2 h2' Kd2 R2).
   intros u2 j Hu2. rewrite Pid, St2, B1 in Hu2. inversion Hu2; subst u2. rewrite Os, HC, Pw.
   apply otp_consumed_no_match; [exact OM|exact (Once u Hu)].
+Qed.
+
+(* ============================== C12 (c): the texted SMS code ================================== *)
+(* events that do not put a code under the session's sms_secret key *)
+Definition nosecret (e : csevent) : Prop :=
+  match e with Put k _ => k <> k_sms_secret | _ => True end.
+(* ... and leave the identity alone as well *)
+Definition nq (e : csevent) : Prop := sess_neutral e /\ nosecret e.
+
+Ltac nqside := first [ exact I | split; [side|side] ].
+
+(* once deleted and never put again, the key is absent from the jar *)
+Lemma alookup_filter_none (k : bytes) (f : bytes * bytes -> bool) (m : amap) :
+  alookup k m = None -> alookup k (filter f m) = None.
+Proof.
+  induction m as [|[k' v'] m IH]; [reflexivity|]. cbn [alookup].
+  destruct (beqb k k') eqn:B; [discriminate|]. intros H. cbn [filter].
+  destruct (f (k', v')); [cbn [alookup]; rewrite B|]; auto.
+Qed.
+
+Lemma nosecret_keeps_absent l : forall j,
+  Forall nosecret l -> alookup k_sms_secret j = None -> alookup k_sms_secret (apply_events j l) = None.
+Proof.
+  unfold apply_events. induction l as [|e l IH]; intros j F Hj; cbn [fold_left]; [exact Hj|].
+  inversion F as [|? ? He Fl]; subst. apply IH; [exact Fl|].
+  destruct e as [k v|k|wl]; cbn [apply_event].
+  - rewrite alookup_aput_neq; [exact Hj|]. intros Hk. apply He. symmetry. exact Hk.
+  - destruct (bytes_dec k_sms_secret k) as [<-|N]; [apply alookup_aremove_eq|].
+    rewrite alookup_aremove_neq by exact N. exact Hj.
+  - apply alookup_filter_none. exact Hj.
+Qed.
+
+Lemma apply_events_app j l1 l2 : apply_events j (l1 ++ l2) = apply_events (apply_events j l1) l2.
+Proof. unfold apply_events. apply fold_left_app. Qed.
+
+Lemma secret_deleted_absent ls j :
+  Forall nosecret ls -> In (Del k_sms_secret) ls -> alookup k_sms_secret (apply_events j ls) = None.
+Proof.
+  intros F Hin. apply in_split in Hin as (l1 & l2 & ->).
+  apply Forall_app in F as [_ F2]. inversion F2 as [|? ? _ F3]; subst.
+  rewrite apply_events_app. change (Del k_sms_secret :: l2) with ([Del k_sms_secret] ++ l2).
+  rewrite apply_events_app. apply nosecret_keeps_absent; [exact F3|].
+  unfold apply_events. cbn [fold_left apply_event]. apply alookup_aremove_eq.
+Qed.
+
+Section SC.
+Variable E : env.
+Notation quiet := (evs_all nq any_ev).
+
+Lemma nq_hook hk rm hd : hk <> HSmsHijack -> quiet (run_hook E hk rm hd).
+Proof.
+  intros Hn. destruct hk; try (exfalso; apply Hn; reflexivity); unfold run_hook;
+    repeat (unfold_derived; cbn beta iota; evs_step); try nqside.
+Qed.
+
+Lemma nq_call hs : Forall (fun hk => hk <> HSmsHijack) hs -> forall rm hd, quiet (call E hs rm hd).
+Proof.
+  induction hs as [|hk hs IH]; intros F rm hd; simpl.
+  - apply evs_ret.
+  - inversion F; subst. apply evs_bind; [apply nq_hook; assumption|intros; apply IH; assumption].
+Qed.
+
+Lemma hooks_no_sms_hijack e : e <> EvBeforeHijack -> Forall (fun hk => hk <> HSmsHijack) (hooks E e).
+Proof.
+  intros Ne. unfold hooks. apply Forall_app. split.
+  - induction (c_mods (e_cfg E)) as [|m l IH]; simpl; [constructor|].
+    apply Forall_app. split; [|exact IH].
+    destruct m, e; simpl; repeat constructor; discriminate.
+  - destruct e; try constructor; try congruence.
+    destruct (c_expire (e_cfg E)); repeat constructor; discriminate.
+Qed.
+
+Lemma nq_fire e rm : e <> EvBeforeHijack -> quiet (fire E e rm).
+Proof. intros Ne. unfold fire. apply nq_call, hooks_no_sms_hijack. exact Ne. Qed.
+
+Lemma nosecret_fire e rm : e <> EvBeforeHijack -> evs_all nosecret any_ev (fire E e rm).
+Proof.
+  intros Ne. apply (evs_weaken nq nosecret any_ev any_ev); [intros ? [_ H]; exact H|intros ? H; exact H|].
+  apply nq_fire. exact Ne.
+Qed.
+
+(* what a run did to the session: only uid-neutral events, or no put of the code and its deletion *)
+Definition spent_at (h h' : hst) : Prop :=
+  exists ls, h_sev h' = h_sev h ++ ls /\
+    (Forall sess_neutral ls \/ (Forall nosecret ls /\ In (Del k_sms_secret) ls)).
+Definition spent {A} (m : M A) : Prop := forall h r h', m h = (r, h') -> spent_at h h'.
+
+Lemma spent_of_neutral {A} (m : M A) : evs_all sess_neutral any_ev m -> spent m.
+Proof. intros Hm h r h' Eq. destruct (Hm _ _ _ Eq) as [(ls & lc & A1 & _ & F & _) _]. exists ls. auto. Qed.
+
+Lemma nq_neutral l : Forall nq l -> Forall sess_neutral l.
+Proof. apply Forall_impl. intros e [H _]. exact H. Qed.
+Lemma nq_nosecret l : Forall nq l -> Forall nosecret l.
+Proof. apply Forall_impl. intros e [_ H]. exact H. Qed.
+
+Lemma spent_of_nq {A} (m : M A) : quiet m -> spent m.
+Proof.
+  intros Hm h r h' Eq. destruct (Hm _ _ _ Eq) as [(ls & lc & A1 & _ & F & _) _]. exists ls.
+  split; [exact A1|left; apply nq_neutral; exact F].
+Qed.
+
+Lemma spent_bind {A B} (m : M A) (f : A -> M B) : quiet m -> (forall a, spent (f a)) -> spent (bind m f).
+Proof.
+  intros Hm Hf h r h' Eq. apply bind_inv in Eq as [(a & h1 & E1 & E2)|[(e & E1 & ->)|(E1 & ->)]].
+  - destruct (Hm _ _ _ E1) as [(l1 & lc & A1 & _ & F1 & _) _].
+    destruct (Hf a _ _ _ E2) as (l2 & A2 & D). exists (l1 ++ l2). rewrite A2, A1, app_assoc. split; [reflexivity|].
+    destruct D as [N|[N I]].
+    + left. apply Forall_app. split; [apply nq_neutral; exact F1|exact N].
+    + right. split; [apply Forall_app; split; [apply nq_nosecret; exact F1|exact N]|apply in_or_app; right; exact I].
+  - exact (spent_of_nq m Hm _ _ _ E1).
+  - exact (spent_of_nq m Hm _ _ _ E1).
+Qed.
+
+Ltac nqgo := repeat (unfold_derived; cbn beta iota; evs_step); try nqside.
+Ltac ntl := repeat (unfold_derived; cbn beta iota; first [apply neutral_fire | evs_step]); try side.
+
+Lemma spent_sms_validate_code u sh inp rc : spent (sms_validate_code E SPValidate u sh inp rc).
+Proof.
+  unfold sms_validate_code.
+  apply spent_bind; [nqgo|intros [vf u2]]. cbn beta iota.
+  destruct vf; cbn [negb]; [|apply spent_of_neutral; ntl].
+  apply spent_bind; [nqgo|intros _].
+  apply spent_bind; [apply nq_fire; discriminate|intros hd].
+  destruct hd; [apply spent_of_nq, evs_ret|].
+  intros h r h' Eq.
+  apply bind_inv in Eq as [(a1 & k1 & F1 & Eq)|[(e & F1 & _)|(F1 & _)]]; try (inversion F1; fail).
+  apply put_session_spec in F1 as (_ & S1 & _).
+  apply bind_inv in Eq as [(a2 & k2 & F2 & Eq)|[(e & F2 & _)|(F2 & _)]]; try (inversion F2; fail).
+  apply put_session_spec in F2 as (_ & S2 & _).
+  apply bind_inv in Eq as [(a3 & k3 & F3 & Eq)|[(e & F3 & _)|(F3 & _)]]; try (inversion F3; fail).
+  apply del_session_spec in F3 as (_ & S3 & _).
+  apply bind_inv in Eq as [(a4 & k4 & F4 & Eq)|[(e & F4 & _)|(F4 & _)]]; try (inversion F4; fail).
+  apply del_session_spec in F4 as (_ & S4 & _).
+  apply bind_inv in Eq as [(a5 & k5 & F5 & Eq)|[(e & F5 & _)|(F5 & _)]]; try (inversion F5; fail).
+  apply del_session_spec in F5 as (_ & S5 & _).
+  match type of Eq with ?m k5 = _ => assert (Hm : evs_all nosecret any_ev m) end.
+  { repeat (unfold_derived; cbn beta iota; first [ apply nosecret_fire; discriminate | evs_step ]); try side. }
+  destruct (Hm _ _ _ Eq) as [(l & lc & A1 & _ & F & _) _].
+  exists ([Put k_uid (u_pid u2); Put k_twofactor (bs "sms"); Del k_halfauth; Del k_sms_pending; Del k_sms_secret] ++ l).
+  split.
+  - rewrite A1, S5, S4, S3, S2, S1, <- !app_assoc. reflexivity.
+  - right. split.
+    + apply Forall_app. split; [|exact F]. repeat constructor; simpl; neq_const.
+    + apply in_or_app. left. simpl. auto 6.
+Qed.
+
+Lemma spent_sms_validator_post : spent (sms_validator_post E SPValidate).
+Proof.
+  unfold sms_validator_post.
+  apply spent_bind; [nqgo|intros [u sh]]. cbn beta iota.
+  apply spent_bind; [nqgo|intros v]. cbv zeta.
+  destruct (bempty (aget f_recovery_code v) && bempty (aget f_code v)).
+  { apply spent_of_neutral, neutral_sms_send_code. }
+  destruct (negb (bempty (aget f_recovery_code v))); apply spent_sms_validate_code.
+Qed.
+
+(* /2fa/sms/validate: if the request wrote an identity into the session (it accepted the texted
+   code, or a recovery code), then among the session events it appended is the deletion of the
+   texted code, none of them puts a code back, and so in any jar these events are applied to the
+   code is absent afterwards: the next request of that browser finds no code to compare with *)
+Lemma sms_code_spent_lemma h r h' ls U :
+  sms_validator_post E SPValidate h = (r, h') -> h_sev h' = h_sev h ++ ls -> In (Put k_uid U) ls ->
+  In (Del k_sms_secret) ls /\ Forall nosecret ls /\
+  forall j, alookup k_sms_secret (apply_events j ls) = None /\ aget k_sms_secret (apply_events j ls) = [].
+Proof.
+  intros Eq Sv Hin. destruct (spent_sms_validator_post _ _ _ Eq) as (ls0 & A1 & D).
+  rewrite Sv in A1. apply app_inv_head in A1. subst ls0.
+  destruct D as [N|[N I]].
+  - exfalso. rewrite Forall_forall in N. apply (N _ Hin). reflexivity.
+  - split; [exact I|]. split; [exact N|]. intros j.
+    pose proof (secret_deleted_absent ls j N I) as Ha. split; [exact Ha|]. unfold aget. rewrite Ha. reflexivity.
+Qed.
+End SC.
+
+(* ============================== C12 (b): recovery codes at the validation pages =============== *)
+(* the two pages that accept a recovery code in place of the second factor *)
+Definition validate2fa (k : tfkind) (E : env) : M unit :=
+  match k with KTotp => totp_validate_post E | KSms => sms_validator_post E SPValidate end.
+Definition pending_key (k : tfkind) : bytes :=
+  match k with KTotp => k_totp_pending | KSms => k_sms_pending end.
+
+Lemma use_rc_same_crypto E1 E2 l c : e_C E2 = e_C E1 -> use_recovery_code E2 l c = use_recovery_code E1 l c.
+Proof. intros HC. induction l as [|a l IH]; simpl; [reflexivity|]. rewrite HC, IH. reflexivity. Qed.
+
+(* what is read back from a stored list of comma-free hashes: the list, or the empty string alone
+   when the list was empty *)
+Lemma decode_encode_incl rest : Forall (nosep ","%byte) rest ->
+  forall y, In y (decode_codes (encode_codes rest)) -> In y rest \/ y = [].
+Proof.
+  intros F y. unfold decode_codes, encode_codes. destruct rest as [|a r].
+  - simpl. intros [H|[]]. right. symmetry. exact H.
+  - rewrite bsplit_bjoin; [auto|discriminate|exact F].
+Qed.
+
+(* the list-level fact (c12_recovery_code_not_reusable) carried through the stored encoding *)
+Lemma consumed_code_rejected E plain c rest :
+  crypto_laws (e_C E) -> NoDup plain -> Forall pw_dom plain -> pw_dom c -> pwcheck (e_C E) [] c = false ->
+  use_recovery_code E (map (pwhash (e_C E)) plain) c = Some rest ->
+  use_recovery_code E (decode_codes (encode_codes rest)) c = None.
+Proof.
+  intros laws ND FD Dc Em U.
+  destruct (use_rc_hashed_lemma E laws plain c rest ND FD Dc U) as (_ & Hr & _ & Hn).
+  apply use_rc_none_iff. intros y Hy. apply decode_encode_incl in Hy as [Hy| ->]; [|exact Em|].
+  - apply (proj1 (use_rc_none_iff E rest c) Hn). exact Hy.
+  - rewrite Hr. apply Forall_forall. intros x Hx. apply in_map_iff in Hx as (p & <- & _).
+    apply (pw_nocomma _ laws).
+Qed.
+
+Ltac kinv QL :=
+  repeat match goal with
+  | |- keeps_inv _ _ _ (bind (fire _ _ _) _) => apply keeps_bind; [apply keeps_fire; [exact QL|discriminate]|intros]
+  | |- keeps_inv _ _ _ (bind _ _) => apply keeps_bind; [apply keeps_of_pres; pres_go|intros]
+  | |- keeps_inv _ _ _ (if ?c then _ else _) => destruct c
+  | |- keeps_inv _ _ _ _ => apply keeps_of_pres; pres_go
+  end.
+
+Section RCV.
+Variable E : env.
+Notation rc := (aget f_recovery_code (values E)).
+
+(* what a validation request that consumed a recovery code of u0 leaves behind *)
+Definition rc_consumed_by (pk : bytes) (h h' : hst) (u0 : user) (rest : list bytes) : Prop :=
+  user_source E pk h u0 /\
+  use_recovery_code E (decode_codes (u_recovery u0)) rc = Some rest /\
+  (exists ls, h_sev h' = h_sev h ++ ls /\ Forall (uid_guard (eq (u_pid u0))) ls) /\
+  (exists su, ulookup (u_pid u0) (s_users (h_st h')) = Some su /\ upto_lock (consumed u0 rest) su) /\
+  (forall p, p <> u_pid u0 -> ulookup p (s_users (h_st h')) = ulookup p (s_users (h_st h))).
+
+(* the part of either page that runs once the record with the shrunken list is saved and is the
+   context user: event hooks may change its lock counters only *)
+Lemma consumed_tail pk u0 rest (m : M unit) h hc r h' l1 :
+  user_source E pk h u0 ->
+  use_recovery_code E (decode_codes (u_recovery u0)) rc = Some rest ->
+  h_sev hc = h_sev h ++ l1 -> Forall sess_neutral l1 ->
+  ulookup (u_pid u0) (s_users (h_st hc)) = Some (consumed u0 rest) ->
+  (forall p, p <> u_pid u0 -> ulookup p (s_users (h_st hc)) = ulookup p (s_users (h_st h))) ->
+  h_cuser hc = Some (consumed u0 rest) ->
+  keeps_inv (u_pid u0) (upto_lock (consumed u0 rest)) (s_users (h_st h)) m ->
+  evs_all (uid_guard (eq (u_pid u0))) any_ev m ->
+  m hc = (r, h') ->
+  rc_consumed_by pk h h' u0 rest.
+Proof.
+  intros Src U S1 N1 Lc Fr Cu Hk He Eq.
+  assert (Ic : hinv (u_pid u0) (upto_lock (consumed u0 rest)) (s_users (h_st h)) hc).
+  { split; [exists (consumed u0 rest); repeat split; auto; apply upto_lock_refl|]. split; [|exact Fr].
+    exists (consumed u0 rest). split; [exact Lc|apply upto_lock_refl]. }
+  destruct (Hk _ _ _ Ic Eq) as (_ & Su & Fr').
+  destruct (He _ _ _ Eq) as [(l2 & lc & A2 & _ & F2 & _) _].
+  split; [exact Src|]. split; [exact U|]. split; [|split; [exact Su|exact Fr']].
+  exists (l1 ++ l2). rewrite A2, S1, app_assoc. split; [reflexivity|].
+  apply Forall_app. split; [|exact F2]. eapply Forall_impl; [|exact N1]. intros e He'. left. exact He'.
+Qed.
+
+Lemma neutral_after {A} (m : M A) h h1 l1 r h' :
+  h_sev h1 = h_sev h ++ l1 -> Forall sess_neutral l1 -> evs_all sess_neutral any_ev m -> m h1 = (r, h') ->
+  exists ls, h_sev h' = h_sev h ++ ls /\ Forall sess_neutral ls.
+Proof.
+  intros S1 N1 Hm Eq. destruct (Hm _ _ _ Eq) as [(l2 & lc & A2 & _ & F2 & _) _].
+  exists (l1 ++ l2). rewrite A2, S1, app_assoc. split; [reflexivity|apply Forall_app; auto].
+Qed.
+
+Ltac ntl := repeat (unfold_derived; cbn beta iota; first [apply neutral_fire | evs_step]); try side.
+Ltac gtl := repeat (unfold_derived; cbn beta iota; first [ghooks | evs_step]); try gside.
+
+(* ---- /2fa/totp/validate ---- *)
+Lemma totp_post_rc_cases h r h' :
+  totp_validate_post E h = (r, h') -> bempty rc = false ->
+  (exists ls, h_sev h' = h_sev h ++ ls /\ Forall sess_neutral ls) \/
+  (exists u0 rest, rc_consumed_by k_totp_pending h h' u0 rest).
+Proof.
+  intros Eq Brc. unfold totp_validate_post in Eq.
+  apply bind_inv in Eq as [([[u sh] st] & h1 & E1 & E2)|[(e & E1 & ->)|(E1 & ->)]].
+  2,3: left; destruct (neutral_totp_validate E _ _ _ E1) as [(ls & lc & A1 & _ & F & _) _]; eauto.
+  destruct (neutral_totp_validate E _ _ _ E1) as [(l1 & lc1 & A1 & _ & N1 & _) _].
+  cbn beta iota in E2.
+  destruct st as [[| |]|]; try (left; revert E2; apply (neutral_after _ h h1 l1); [exact A1|exact N1|ntl]; fail).
+  (* success *)
+  rewrite totp_validate_unfold in E1.
+  apply bind_inv in E1 as [([u0 sh0] & h0 & H0 & T0)|[(e & _ & D)|(_ & D)]]; try discriminate D.
+  unfold tv_head in H0. apply (fetch_user_spec E k_totp_pending) in H0 as (_ & _ & S0 & _ & _ & Src).
+  apply tv_tail_spec in T0 as [(N & _)|[(_ & B & _)|(_ & _ & rest & U & Hr & St)]];
+    [exfalso; exact (N _ _ eq_refl)|congruence|].
+  inversion Hr; subst u sh; clear Hr. right. exists u0, rest.
+  assert (L1 : ulookup (u_pid u0) (s_users (h_st h1)) = Some (consumed u0 rest))
+    by (rewrite St; cbn [s_users set]; apply ulookup_uput_eq).
+  assert (Fr1 : forall p, p <> u_pid u0 -> ulookup p (s_users (h_st h1)) = ulookup p (s_users (h_st h))).
+  { intros p Np. rewrite St. cbn [s_users set]. change (u_pid (consumed u0 rest)) with (u_pid u0).
+    rewrite ulookup_uput_neq by exact Np. rewrite S0. reflexivity. }
+  (* the optional second Save of the same record *)
+  apply bind_inv in E2 as [(a2 & h2 & K1 & E2)|[(e & K1 & ->)|(K1 & ->)]].
+  - assert (X2 : h_sev h2 = h_sev h1 /\
+                 ulookup (u_pid u0) (s_users (h_st h2)) = Some (consumed u0 rest) /\
+                 (forall p, p <> u_pid u0 -> ulookup p (s_users (h_st h2)) = ulookup p (s_users (h_st h)))).
+    { destruct (c_onetime (e_cfg E)).
+      - apply st_save_spec in K1 as (Sv & _ & _ & _ & [(e' & Hr & St2)|(_ & St2)]); [discriminate Hr|].
+        rewrite St2. cbn [s_users set]. change (u_pid (consumed u0 rest)) with (u_pid u0).
+        split; [exact Sv|]. split; [apply ulookup_uput_eq|].
+        intros p Np. rewrite ulookup_uput_neq by exact Np. apply Fr1. exact Np.
+      - inversion K1; subst. auto. }
+    destruct X2 as (S2 & L2 & Fr2).
+    apply bind_inv in E2 as [(a3 & h3 & K2 & E2)|[(e & K2 & _)|(K2 & _)]]; try (inversion K2; fail).
+    assert (X3 : h_sev h3 = h_sev h2 /\ h_st h3 = h_st h2 /\ h_cuser h3 = Some (consumed u0 rest))
+      by (inversion K2; subst; auto).
+    destruct X3 as (S3 & T3 & C3). clear K2.
+    revert E2. apply (consumed_tail k_totp_pending u0 rest _ h h3 r h' l1); auto.
+    + congruence.
+    + rewrite T3. exact L2.
+    + intros p Np. rewrite T3. apply Fr2. exact Np.
+    + pose proof (upto_lock_lock (consumed u0 rest)) as QL. kinv QL.
+    + assert (G : u_pid u0 = u_pid (consumed u0 rest)) by reflexivity. gtl.
+  - (* the second Save failed: the first one stands *)
+    destruct (c_onetime (e_cfg E)); [|inversion K1].
+    apply st_save_spec in K1 as (Sv & _ & _ & _ & [(e' & _ & St2)|(Hr & _)]); [|discriminate Hr].
+    split; [exact Src|]. split; [exact U|]. split; [|split].
+    + exists l1. rewrite Sv, A1. split; [reflexivity|]. eapply Forall_impl; [|exact N1]. intros x Hx. left. exact Hx.
+    + exists (consumed u0 rest). rewrite St2. split; [exact L1|apply upto_lock_refl].
+    + intros p Np. rewrite St2. apply Fr1. exact Np.
+  - destruct (c_onetime (e_cfg E)); [|inversion K1].
+    apply st_save_spec in K1 as (_ & _ & _ & _ & [(e' & Hr & _)|(Hr & _)]); discriminate Hr.
+Qed.
+
+(* ---- /2fa/sms/validate ---- *)
+Lemma sms_post_rc_cases h r h' :
+  sms_validator_post E SPValidate h = (r, h') -> bempty rc = false ->
+  (exists ls, h_sev h' = h_sev h ++ ls /\ Forall sess_neutral ls) \/
+  (exists u0 rest, rc_consumed_by k_sms_pending h h' u0 rest).
+Proof.
+  intros Eq Brc. unfold sms_validator_post in Eq.
+  assert (NIL : forall h0, h_sev h0 = h_sev h -> exists ls, h_sev h0 = h_sev h ++ ls /\ Forall sess_neutral ls)
+    by (intros h0 S0; exists []; rewrite app_nil_r; auto).
+  apply bind_inv in Eq as [([u0 sh] & h0 & H0 & Eq)|[(e & H0 & ->)|(H0 & ->)]].
+  2,3: left; match type of H0 with ?m _ = _ => assert (Hm : evs_all sess_neutral any_ev m) by ntl end;
+       destruct (Hm _ _ _ H0) as [(ls & lc & A1 & _ & F & _) _]; eauto.
+  apply (fetch_user_spec E k_sms_pending) in H0 as (S0 & _ & T0 & _ & _ & Src). cbn beta iota in Eq.
+  apply bind_inv in Eq as [(v & h1 & E1 & Eq)|[(e & E1 & ->)|(E1 & ->)]];
+    apply read_values_spec in E1 as [-> [Hv|Hv]]; try discriminate Hv; try (left; apply NIL; exact S0).
+  inversion Hv; subst v; clear Hv. cbv zeta in Eq. rewrite Brc in Eq. cbn [andb negb] in Eq.
+  unfold sms_validate_code in Eq. rewrite Brc in Eq. cbn [negb] in Eq.
+  destruct (use_recovery_code E (decode_codes (u_recovery u0)) rc) as [rest|] eqn:U.
+  2:{ left. apply bind_inv in Eq as [(a1 & k1 & F1 & Eq)|[(e & F1 & _)|(F1 & _)]]; try (inversion F1; fail).
+      inversion F1; subst a1 k1; clear F1. cbn beta iota in Eq. cbn [negb] in Eq.
+      revert Eq. apply (neutral_after _ h h0 []); [rewrite app_nil_r; exact S0|constructor|]. ntl. }
+  fold (consumed u0 rest) in Eq.
+  apply bind_inv in Eq as [([vf u2] & h2 & K1 & Eq)|[(e & K1 & ->)|(K1 & ->)]].
+  2,3: left; match type of K1 with ?m _ = _ => assert (Hm : evs_all sess_neutral any_ev m) by ntl end;
+       destruct (Hm _ _ _ K1) as [(ls & lc & A1 & _ & F & _) _]; exists ls; rewrite <- S0; auto.
+  (* log; store_back; Save; ret *)
+  apply bind_inv in K1 as [(a1 & k1 & F1 & K1)|[(e & F1 & D)|(F1 & D)]]; try discriminate D.
+  apply log_spec in F1 as (_ & Sa & _ & Ta & _).
+  apply bind_inv in K1 as [(a2 & k2 & F2 & K1)|[(e & F2 & D)|(F2 & D)]]; try discriminate D.
+  assert (X2 : h_sev k2 = h_sev k1 /\ h_st k2 = h_st k1) by (destruct sh; inversion F2; subst; auto).
+  destruct X2 as (Sb & Tb). clear F2.
+  apply bind_inv in K1 as [(a3 & k3 & F3 & K1)|[(e & F3 & D)|(F3 & D)]]; try discriminate D.
+  apply st_save_spec in F3 as (Sc & _ & _ & _ & [(e' & Hr & _)|(_ & Tc)]); [discriminate Hr|].
+  inversion K1; subst vf u2 h2; clear K1. cbn beta iota in Eq. cbn [negb] in Eq.
+  assert (L1 : ulookup (u_pid u0) (s_users (h_st k3)) = Some (consumed u0 rest))
+    by (rewrite Tc; cbn [s_users set]; apply ulookup_uput_eq).
+  assert (Fr1 : forall p, p <> u_pid u0 -> ulookup p (s_users (h_st k3)) = ulookup p (s_users (h_st h))).
+  { intros p Np. rewrite Tc. cbn [s_users set]. change (u_pid (consumed u0 rest)) with (u_pid u0).
+    rewrite ulookup_uput_neq by exact Np. rewrite Tb, Ta, T0. reflexivity. }
+  right. exists u0, rest.
+  apply bind_inv in Eq as [(a4 & k4 & K2 & Eq)|[(e & K2 & _)|(K2 & _)]]; try (inversion K2; fail).
+  assert (X4 : h_sev k4 = h_sev k3 /\ h_st k4 = h_st k3 /\ h_cuser k4 = Some (consumed u0 rest))
+    by (inversion K2; subst; auto).
+  destruct X4 as (S4 & T4 & C4). clear K2.
+  revert Eq. apply (consumed_tail k_sms_pending u0 rest _ h k4 r h' []); auto.
+  - rewrite app_nil_r. congruence.
+  - rewrite T4. exact L1.
+  - intros p Np. rewrite T4. apply Fr1. exact Np.
+  - pose proof (upto_lock_lock (consumed u0 rest)) as QL. kinv QL.
+  - assert (G : u_pid u0 = u_pid (consumed u0 rest)) by reflexivity. gtl.
+Qed.
+
+Lemma validate2fa_rc_cases k h r h' :
+  validate2fa k E h = (r, h') -> bempty rc = false ->
+  (exists ls, h_sev h' = h_sev h ++ ls /\ Forall sess_neutral ls) \/
+  (exists u0 rest, rc_consumed_by (pending_key k) h h' u0 rest).
+Proof. destruct k; [apply totp_post_rc_cases|apply sms_post_rc_cases]. Qed.
+
+(* ---- the refusal: the record stored under U verifies the submitted recovery code against none of
+   its stored hashes, and there is no context user yet (the start of a request): neither page
+   writes the identity U ---- *)
+Lemma user_source_stored pk h u :
+  keyed (h_st h) -> h_cuser h = None -> user_source E pk h u -> ulookup (u_pid u) (s_users (h_st h)) = Some u.
+Proof.
+  intros Kd Cn [Hc|[Hl|Hl]]; [congruence| |]; rewrite <- (Kd _ _ Hl) in Hl; exact Hl.
+Qed.
+
+Lemma validate2fa_rc_refused k h r h' U ls :
+  keyed (h_st h) -> h_cuser h = None -> bempty rc = false ->
+  (forall u, ulookup U (s_users (h_st h)) = Some u -> use_recovery_code E (decode_codes (u_recovery u)) rc = None) ->
+  validate2fa k E h = (r, h') -> h_sev h' = h_sev h ++ ls -> ~ In (Put k_uid U) ls.
+Proof.
+  intros Kd Cn Brc NoCode Eq Sv Hin.
+  assert (G : exists u, user_source E (pending_key k) h u /\ u_pid u = U /\
+                        use_recovery_code E (decode_codes (u_recovery u)) rc <> None).
+  { destruct k; cbn [validate2fa pending_key] in *.
+    - destruct (totp_validate_post_guard E h _ _ Eq) as (ls0 & lc & A1 & _ & F).
+      rewrite Sv in A1. apply app_inv_head in A1. subst ls0. rewrite Forall_forall in F.
+      destruct (F _ Hin) as [N|(U' & EqU & u & (Src & _ & Hrc & _) & Pu)]; [exfalso; apply N; reflexivity|].
+      inversion EqU; subst U'. exists u. auto.
+    - destruct (sms_validator_post_guard E h _ _ Eq) as (ls0 & lc & A1 & _ & F).
+      rewrite Sv in A1. apply app_inv_head in A1. subst ls0. rewrite Forall_forall in F.
+      destruct (F _ Hin) as [N|(U' & EqU & u & Src & Pu & Hrc & _)]; [exfalso; apply N; reflexivity|].
+      inversion EqU; subst U'. exists u. auto. }
+  destruct G as (u & Src & Pu & Hrc). apply Hrc. apply NoCode.
+  rewrite <- Pu. exact (user_source_stored _ h u Kd Cn Src).
+Qed.
+End RCV.
+
+(* First run: one of the two validation pages, given the recovery code c, wrote the identity U.
+   Second run: either page, any environment with the same crypto that submits the same c, from the
+   storage the first run left, at the start of a request (no context user).
+   Hypotheses: [crypto_laws]; records are filed under their own pid ([keyed]); the stored recovery
+   list of U read back as the hashes of distinct plain codes, all within bcrypt's domain, as is c;
+   the empty string does not verify c (when the last code is consumed the stored value is the empty
+   string, which reads back as one empty entry; bcrypt rejects it as malformed). *)
+Lemma recovery_code_once_lemma k1 k2 E1 h1 r1 h1' ls U plain E2 h2 r2 h2' ls2 :
+  crypto_laws (e_C E1) -> keyed (h_st h1) -> h_cuser h1 = None ->
+  validate2fa k1 E1 h1 = (r1, h1') -> h_sev h1' = h_sev h1 ++ ls -> In (Put k_uid U) ls ->
+  bempty (aget f_recovery_code (values E1)) = false ->
+  (forall u, ulookup U (s_users (h_st h1)) = Some u -> decode_codes (u_recovery u) = map (pwhash (e_C E1)) plain) ->
+  NoDup plain -> Forall pw_dom plain -> pw_dom (aget f_recovery_code (values E1)) ->
+  pwcheck (e_C E1) [] (aget f_recovery_code (values E1)) = false ->
+  e_C E2 = e_C E1 -> aget f_recovery_code (values E2) = aget f_recovery_code (values E1) ->
+  h_st h2 = h_st h1' -> h_cuser h2 = None ->
+  validate2fa k2 E2 h2 = (r2, h2') -> h_sev h2' = h_sev h2 ++ ls2 ->
+  ~ In (Put k_uid U) ls2.
+Proof.
+  intros laws Kd Cn R1 Sv Hin Brc Plain ND FD Dc Em HC Rc St2 Cn2 R2 Sv2.
+  destruct (validate2fa_rc_cases E1 k1 _ _ _ R1 Brc) as [(ls0 & A1 & F)|(u0 & rest & Src & Uc & (ls0 & A1 & Fg) & (su & B1 & B2) & Fr)].
+  { rewrite Sv in A1. apply app_inv_head in A1. subst ls0.
+    rewrite Forall_forall in F. exfalso. apply (F _ Hin). reflexivity. }
+  rewrite Sv in A1. apply app_inv_head in A1. subst ls0. rewrite Forall_forall in Fg.
+  assert (PU : u_pid u0 = U).
+  { destruct (Fg _ Hin) as [N|(U' & EqU & G)]; [exfalso; apply N; reflexivity|]. inversion EqU. congruence. }
+  pose proof (user_source_stored E1 _ h1 u0 Kd Cn Src) as Lu. rewrite PU in *.
+  destruct B2 as [s ->].
+  assert (Kd2 : keyed (h_st h2)).
+  { rewrite St2. apply (keyed_frame (h_st h1) (h_st h1') U _ Kd B1); [exact PU|exact Fr]. }
+  apply (validate2fa_rc_refused E2 k2 h2 r2 h2' U ls2 Kd2 Cn2); auto.
+  - rewrite Rc. exact Brc.
+  - intros u Hu. rewrite St2, B1 in Hu. inversion Hu; subst u; clear Hu.
+    change (u_recovery (set_ltriple (consumed u0 rest) s)) with (encode_codes rest).
+    rewrite Rc, (use_rc_same_crypto E1 E2 _ _ HC).
+    rewrite (Plain u0 Lu) in Uc.
+    exact (consumed_code_rejected E1 plain _ rest laws ND FD Dc Em Uc).
+Qed.
+
+(* ---- (c), second request: no code in the session, a code (no recovery code) submitted: the page
+   writes no identity ---- *)
+Lemma sms_no_code_refused_lemma E h r h' ls U :
+  aget k_sms_secret (e_sess E) = [] -> bempty (aget f_recovery_code (values E)) = true ->
+  sms_validator_post E SPValidate h = (r, h') -> h_sev h' = h_sev h ++ ls -> ~ In (Put k_uid U) ls.
+Proof.
+  intros Ns Brc Eq Sv Hin.
+  destruct (sms_validator_post_guard E h _ _ Eq) as (ls0 & lc & A1 & _ & F).
+  rewrite Sv in A1. apply app_inv_head in A1. subst ls0. rewrite Forall_forall in F.
+  destruct (F _ Hin) as [N|(U' & _ & u & _ & _ & _ & Hc)]; [apply N; reflexivity|].
+  destruct (Hc Brc) as (Hb & _). rewrite Ns in Hb. discriminate Hb.
+Qed.
+
+(* the texted code, two runs: the first wrote an identity; the next request of a browser whose session
+   is the result of applying the first run's session events to any jar, submitting any code (and no
+   recovery code), writes no identity *)
+Lemma sms_code_once_lemma E1 h1 r1 h1' ls U j E2 h2 r2 h2' ls2 U2 :
+  sms_validator_post E1 SPValidate h1 = (r1, h1') -> h_sev h1' = h_sev h1 ++ ls -> In (Put k_uid U) ls ->
+  e_sess E2 = apply_events j ls -> bempty (aget f_recovery_code (values E2)) = true ->
+  sms_validator_post E2 SPValidate h2 = (r2, h2') -> h_sev h2' = h_sev h2 ++ ls2 -> ~ In (Put k_uid U2) ls2.
+Proof.
+  intros R1 Sv Hin Se Brc R2 Sv2.
+  destruct (sms_code_spent_lemma E1 _ _ _ _ _ R1 Sv Hin) as (_ & _ & Ha).
+  apply (sms_no_code_refused_lemma E2 h2 r2 h2' ls2 U2); auto. rewrite Se. apply Ha.
 Qed.
